@@ -45,6 +45,8 @@ type Ptr struct {
 	styp   types.Type // struct type owning the field (pField)
 	field  int
 	idx    T // pElem: absolute index into the backing array
+	sl     T // pElem: the slice indexed (when known)
+	rel    T // pElem: index relative to the slice
 	lit    *ArrLit
 	litIdx int
 	global string
@@ -107,6 +109,7 @@ type Frame struct {
 	defers []Deferred
 	parent *Frame
 	named  map[string]*Cell // source name -> most recent cell
+	resultAllocs map[*ssa.Alloc][]string
 	depth  int
 }
 
@@ -114,7 +117,7 @@ func (f *Frame) clone() *Frame {
 	if f == nil {
 		return nil
 	}
-	n := &Frame{fn: f.fn, regs: make(map[ssa.Value]Value, len(f.regs)+8), parent: f.parent.clone(), depth: f.depth}
+	n := &Frame{fn: f.fn, regs: make(map[ssa.Value]Value, len(f.regs)+8), parent: f.parent.clone(), depth: f.depth, resultAllocs: f.resultAllocs}
 	for k, v := range f.regs {
 		n.regs[k] = v
 	}
@@ -124,6 +127,11 @@ func (f *Frame) clone() *Frame {
 		n.named[k] = v
 	}
 	return n
+}
+
+type stopPoint struct {
+	block *ssa.BasicBlock
+	depth int
 }
 
 type LockHeld struct {
@@ -140,6 +148,7 @@ type Snapshot struct {
 	epoch int
 	cnt   map[string]T
 	named map[string]*Cell
+	ctxDone map[string]T
 }
 
 type privRef struct {
@@ -150,6 +159,7 @@ type privRef struct {
 type LoopCtx struct {
 	loop       *Loop
 	head       *Snapshot // state right after havoc+assume at the header
+	pre        *Snapshot // state right before the havoc at loop entry
 	headTokens map[string]int
 	headLocks  int
 }
@@ -162,6 +172,7 @@ type State struct {
 	frame    *Frame
 	cnt      map[string]T
 	lastArgs map[string][]Value
+	lastRes  map[string]Value
 	locks    []LockHeld
 	acq      *Snapshot
 	entry    *Snapshot
@@ -174,7 +185,8 @@ type State struct {
 	tokens   map[string]int // WaitGroup credits held by this activation
 	notes    []string
 	marks    map[string]*Snapshot
-	lastNamed map[string]*Cell
+	lastFrame *Frame
+	stopAt   []stopPoint
 }
 
 func (s *State) clone() *State {
@@ -196,6 +208,10 @@ func (s *State) clone() *State {
 	for k, v := range s.lastArgs {
 		n.lastArgs[k] = v
 	}
+	n.lastRes = make(map[string]Value, len(s.lastRes))
+	for k, v := range s.lastRes {
+		n.lastRes[k] = v
+	}
 	n.locks = append([]LockHeld(nil), s.locks...)
 	n.private = append([]privRef(nil), s.private...)
 	n.ctxDone = make(map[string]T, len(s.ctxDone))
@@ -209,7 +225,8 @@ func (s *State) clone() *State {
 		n.tokens[k] = v
 	}
 	n.notes = append([]string(nil), s.notes...)
-	n.lastNamed = s.lastNamed
+	n.lastFrame = s.lastFrame
+	n.stopAt = append([]stopPoint(nil), s.stopAt...)
 	n.marks = make(map[string]*Snapshot, len(s.marks))
 	for k, v := range s.marks {
 		n.marks[k] = v
@@ -232,6 +249,10 @@ func (s *State) snapshot() *Snapshot {
 		for k, v := range s.frame.named {
 			sn.named[k] = v
 		}
+	}
+	sn.ctxDone = make(map[string]T, len(s.ctxDone))
+	for k, v := range s.ctxDone {
+		sn.ctxDone[k] = v
 	}
 	return sn
 }
@@ -271,6 +292,11 @@ func (u *Unit) noteHeap(name string, sort Sort) {
 
 func (u *Unit) heapSet(s *State, name string, t T) {
 	u.noteHeap(name, t.Sort)
+	if strings.HasPrefix(t.S, "(") && !strings.HasPrefix(t.S, "((as const") {
+		c := u.fresh(name+"@s", t.Sort)
+		s.assume(Eq(c, t))
+		t = c
+	}
 	s.heaps[name] = t
 }
 
@@ -313,6 +339,7 @@ func (u *Unit) assumeTypeInv(s *State, v T, t types.Type) {
 	switch v.Sort {
 	case SSlice:
 		s.assume(app(SBool, "wfSlice", v))
+		u.assumeAllocated(s, app(SInt, "sarr", v))
 	case SInt:
 		if b, ok := t.Underlying().(*types.Basic); ok && b.Info()&types.IsInteger != 0 {
 			if b.Info()&types.IsUnsigned != 0 {
